@@ -133,6 +133,19 @@ def run_xfer(ctx):
 
 
 def run(ctx):
+    # fourth stage (checks/c06_pthread.py: real threads, ThreadSanitizer) runs beside the others
+    import concurrent.futures
+    from checks import c06_pthread
+    pex = concurrent.futures.ThreadPoolExecutor(max_workers=1)
+    pfut = pex.submit(c06_pthread.run_part, ctx)
+    try:
+        _run(ctx)
+    finally:
+        pfut.result()
+        pex.shutdown()
+
+
+def _run(ctx):
     run_queue(ctx)
     run_xfer(ctx)
     # third stage: the worker pipes built on both (checks/c06_worker.py)
@@ -251,6 +264,9 @@ def run_queue(ctx):
 
 
 def replay(ctx, rp):
+    if str(rp.get("replay", {}).get("stage", "")).startswith("pthread"):
+        from checks import c06_pthread
+        return c06_pthread.replay(ctx, rp)
     if rp.get("replay", {}).get("stage") == "worker":
         from checks import c06_worker
         return c06_worker.replay(ctx, rp)
